@@ -1294,9 +1294,9 @@ Proof.
   - (* OHPos *) apply with_handle_ro; [exact HF|]. intros h0 HO.
     eexists _, _. split; [reflexivity|]. split; [exact I|exact HO].
   - (* OHDrop *)
-    cbn [snd fst]. split; [exact I|]. destruct HF as [Hc Hh]. unfold drop_handle.
-    destruct (nthN (hs f) h) as [[h0|]|] eqn:Hn; try (split; assumption).
-    rewrite Hc, (flush_clean s h0 (Hh _ _ Hn)). split; [reflexivity|].
+    cbn [snd fst]. destruct HF as [Hc Hh]. unfold drop_handle, drop_result.
+    destruct (nthN (hs f) h) as [[h0|]|] eqn:Hn; try (split; [exact I|split; assumption]).
+    rewrite Hc, (flush_clean s h0 (Hh _ _ Hn)). cbn [snd]. split; [exact I|]. split; [reflexivity|].
     cbn [hs]. apply HandlesOk_upd; [exact Hh|discriminate].
   - (* OCat *) eapply with_cs_ro; [exact HF|apply ro_api_cat; exact HI].
 Qed.
